@@ -44,6 +44,8 @@ type c04Op struct {
 	Ledger string
 	// Make builds the log(s) to append, or nil when the op is not applicable in this state
 	Make func(st *c04State) []*ledger.Log
+	// At: date of the log entries (zero: the synthetic clock of the history)
+	At ledger.Time
 }
 
 var (
@@ -181,6 +183,9 @@ func (st *c04State) apply(op c04Op) (*c04State, string) {
 	total := len(n.logs["l1"]) + len(n.logs["l2"])
 	for i, l := range ls {
 		l.Date = ledger.Time{Time: c04Base.Add(time.Duration(total+i) * time.Second)}
+		if !op.At.IsZero() {
+			l.Date = op.At
+		}
 		var prev *ledger.ChainedLog
 		if len(chain) > 0 {
 			prev = chain[len(chain)-1]
